@@ -39,6 +39,8 @@ type Hint struct {
 
 type FuncSpec struct {
 	TrustPre   []string
+	TrustPreQuiet []string // subset of TrustPre: precondition formulas are not even assumed at the call sites
+	IgnorePost map[string][]string // callee name -> labels of the postconditions that ARE kept at its call sites (all others are dropped)
 	NoFrame    bool
 	AssumedEns []Clause
 	Hints      []Hint
@@ -64,6 +66,7 @@ type FuncSpec struct {
 	Modes map[string]bool // proof-search options of this function's VC (`mode <name>`)
 	Unroll     map[int]int
 	MayPanic   bool // explicit panics are not obligations here (documented rejection)
+	NoPanicWhen []Clause // `nopanic when E` (ext_nopanic.go): under E (entry state) no explicit or propagated panic is reachable
 	Lockset    string // `lockset <field>`: syntactic check that the method runs under receiver.<field> (see lockset.go)
 	Ghosts     []GhostVar    // auxiliary integer variables of the function (initialised at entry)
 	GhostUpds  []*GhostUpd   // assignments to them, anchored at a source line of the function body
@@ -133,7 +136,7 @@ func loadContracts(files []string) (*Contracts, error) {
 	return cs, nil
 }
 
-var clauseKeywords = []string{"rec", "trustpre", "noframe", "lockset", "assumes", "hint", "func", "assume", "spec", "lemma", "requires", "ensures", "panics", "modifies", "reads", "pure", "loop", "property", "inline", "noinline", "fresh", "opaque", "axiom", "package", "uninterp", "maypanic", "expectfail", "mode", "unroll", "unreachable", "ghost", "at", "uses"}
+var clauseKeywords = []string{"ignorepost", "rec", "trustpre", "noframe", "lockset", "assumes", "hint", "func", "assume", "spec", "lemma", "requires", "ensures", "panics", "modifies", "reads", "pure", "loop", "property", "inline", "noinline", "fresh", "opaque", "axiom", "package", "uninterp", "maypanic", "expectfail", "mode", "unroll", "unreachable", "ghost", "at", "uses", "nopanic"}
 
 func startsClause(s string) bool {
 	for _, k := range clauseKeywords {
@@ -314,7 +317,33 @@ func (cs *Contracts) loadFile(path string) error {
 			// trustpre <callee> ...: the preconditions of calls to these callees made by this function are assumed, not
 			// checked (they belong to another property's proof); listed as assumptions
 			if cur != nil {
-				cur.TrustPre = append(cur.TrustPre, strings.Fields(rest)...)
+				fs := strings.Fields(rest)
+				if len(fs) > 0 && fs[0] == "quiet:" {
+					// trustpre quiet: <callee> ...: as trustpre (neither checked nor claimed), but the precondition formulas are NOT added
+					// to this function's context either (for callees whose representation invariants are large quantified formulas
+					// that this proof does not need: they only slow the solvers down). Listed as the same assumption.
+					cur.TrustPreQuiet = append(cur.TrustPreQuiet, fs[1:]...)
+					cur.TrustPre = append(cur.TrustPre, fs[1:]...)
+				} else {
+					cur.TrustPre = append(cur.TrustPre, fs...)
+				}
+			}
+		case "ignorepost":
+			// ignorepost <callee>[:label,label...] ...: at the call sites of these callees in this function the callee's postconditions
+			// are NOT added to the context, except the listed labels (the callee's frame still applies). Dropping assumptions is always
+			// sound; it keeps quantifier-heavy postconditions that this proof does not need (e.g. permutation clauses with
+			// forall/exists alternation) from flooding the solver.
+			if cur != nil {
+				if cur.IgnorePost == nil {
+					cur.IgnorePost = map[string][]string{}
+				}
+				for _, f := range strings.Fields(rest) {
+					name, keep := f, []string{}
+					if i := strings.Index(f, ":"); i >= 0 {
+						name, keep = f[:i], strings.Split(f[i+1:], ",")
+					}
+					cur.IgnorePost[name] = keep
+				}
 			}
 		case "noframe":
 			// the modifies clause of this function is assumed, not checked against its body (listed as an assumption)
@@ -439,6 +468,17 @@ func (cs *Contracts) loadFile(path string) error {
 			if cur != nil {
 				cur.MayPanic = true
 			}
+		case "nopanic":
+			// nopanic when E (ext_nopanic.go)
+			if cur == nil {
+				return fail(fmt.Errorf("nopanic outside func"))
+			}
+			rest = strings.TrimSpace(strings.TrimPrefix(rest, "when"))
+			cl, err := mkClause(rest, src)
+			if err != nil {
+				return fail(err)
+			}
+			cur.NoPanicWhen = append(cur.NoPanicWhen, cl)
 		case "ghost":
 			// ghost NAME = INIT
 			if cur == nil {
